@@ -118,7 +118,20 @@ def run(run):
                'signals are linear in time over the interval (a + b t, d + e t): their samples / interval integrals feed the real compute_increments_from_imu')
     timeout = 60 if run.tier == 'quick' else 300
     for stype in ('ideal', 'rate', 'increment'):
-        obls = section(rep, stype)
+        try:
+            obls = section(rep, stype)
+        except S.SymbolicBranch as e:
+            # with a formal (infinitesimal) step no branch of the unmodified code depends on a
+            # symbolic value; a change that makes one do so (e.g. a step that does not vanish with
+            # the sampling interval) is put to the compiled code at a generic state
+            spec = {'kind': 'numeric', 'check': 'consistency', 'point': {}, 'params': {'type': stype}, 'obligation': '%s: local consistency' % stype}
+            res = common.run_replays([dict(spec, property=PROP)])[0]
+            if res.get('violated'):
+                run.violation('%s: the computation branches on a quantity that should vanish with the step (%s); real code: %s' % (stype, str(e)[:120], res.get('detail')), common.write_replay(PROP, spec), res.get('detail'))
+            else:
+                run.error('%s: symbolic execution met a data-dependent branch (%s) and the compiled code satisfies the oracle - inconclusive' % (stype, str(e)[:160]))
+            run.family('local consistency', 1, 0, 0.0)
+            continue
         rep.finish(rep.batch(obls, timeout_s=timeout), PROP)
         s = z3.Solver()
         s.add(S.C.cons)
@@ -161,39 +174,42 @@ def replay(spec):
     We = np.array([0, 0, earth.RATE])
     g_n = earth.gravity_n(lat, alt)
     fails = []
-    out = {}
-    for h in (2e-3, 1e-3):
-        if stype == 'ideal':
-            inc = pd.DataFrame([np.hstack([[h], a * h, d * h])], index=[h], columns=['dt', 'theta_x', 'theta_y', 'theta_z', 'dv_x', 'dv_y', 'dv_z'])
-        else:
-            w = lambda t: a + b * t
-            f = lambda t: d + e * t
-            W = lambda t: a * t + b * t * t / 2
-            Fi = lambda t: d * t + e * t * t / 2
-            rows = [np.hstack([w(0), f(0)]), np.hstack([w(h), f(h)])] if stype == 'rate' else [np.hstack([-W(-h), -Fi(-h)]), np.hstack([W(h), Fi(h)])]
-            inc = strapdown.compute_increments_from_imu(pd.DataFrame(rows, columns=GYRO_COLS + ACCEL_COLS, index=[0.0, h]), stype)
-        it = strapdown.Integrator(pva)
-        it.integrate(inc)
-        p1 = it.get_pva()
-        lla1 = p1[['lat', 'lon', 'alt']].values
-        A = (transform.lla_to_ecef(lla1) - transform.lla_to_ecef([lat, lon, alt])) / h
-        Cen1 = transform.mat_en_from_ll(lla1[0], lla1[1])
-        B = (Cen1 @ p1[['VN', 'VE', 'VD']].values - C_en @ V) / h
-        Cc = (Cen1 @ transform.mat_from_rph(p1[['roll', 'pitch', 'heading']]) - C_en @ Cm) / h
-        out[h] = (A, B, Cc)
-    # Richardson: first-order defect extrapolated to h -> 0
-    ex = [2 * out[1e-3][k] - out[2e-3][k] for k in range(3)]
-    wantA = C_en @ V
-    wantB = C_en @ Cm @ d + C_en @ g_n - 2 * np.cross(We, C_en @ V)
-    Wx = np.array([[0, -a[2], a[1]], [a[2], 0, -a[0]], [-a[1], a[0], 0]])
-    Ex = np.array([[0, -earth.RATE, 0], [earth.RATE, 0, 0], [0, 0, 0]])
-    wantC = C_en @ Cm @ Wx - Ex @ C_en @ Cm
-    # Richardson-extrapolated one-step rates are accurate to O(h^2) ~ 1e-6 relative; the tolerances sit
-    # just above that so that dt-independent defects of a few 1e-5 m/s^2 (e.g. a wrong radius in a
-    # transport-rate term at 250 m/s) are still seen
-    for nm, got, want, tol in (('position kinematics', ex[0], wantA, 2e-6 * max(1, np.abs(wantA).max()) + 1e-6),
-                               ('velocity dynamics', ex[1], wantB, 2e-6 * max(1, np.abs(wantB).max()) + 3e-6),
-                               ('attitude kinematics', ex[2], wantC, 4e-5 * max(1, np.abs(wantC).max()))):
-        if np.abs(got - want).max() > tol:
-            fails.append('%s: one-step rate of the integrator differs from Newton\'s law in ECEF by %.3g (tolerance %.3g)' % (nm, np.abs(got - want).max(), tol))
+    # two pairs of steps: multiples of a microsecond, and binary fractions that are not (a change that
+    # quantises time stamps must not hide behind round numbers)
+    for h2, h1 in ((2e-3, 1e-3), (1 / 512, 1 / 1024)):
+      out = {}
+      for h in (h2, h1):
+          if stype == 'ideal':
+              inc = pd.DataFrame([np.hstack([[h], a * h, d * h])], index=[h], columns=['dt', 'theta_x', 'theta_y', 'theta_z', 'dv_x', 'dv_y', 'dv_z'])
+          else:
+              w = lambda t: a + b * t
+              f = lambda t: d + e * t
+              W = lambda t: a * t + b * t * t / 2
+              Fi = lambda t: d * t + e * t * t / 2
+              rows = [np.hstack([w(0), f(0)]), np.hstack([w(h), f(h)])] if stype == 'rate' else [np.hstack([-W(-h), -Fi(-h)]), np.hstack([W(h), Fi(h)])]
+              inc = strapdown.compute_increments_from_imu(pd.DataFrame(rows, columns=GYRO_COLS + ACCEL_COLS, index=[0.0, h]), stype)
+          it = strapdown.Integrator(pva)
+          it.integrate(inc)
+          p1 = it.get_pva()
+          lla1 = p1[['lat', 'lon', 'alt']].values
+          A = (transform.lla_to_ecef(lla1) - transform.lla_to_ecef([lat, lon, alt])) / h
+          Cen1 = transform.mat_en_from_ll(lla1[0], lla1[1])
+          B = (Cen1 @ p1[['VN', 'VE', 'VD']].values - C_en @ V) / h
+          Cc = (Cen1 @ transform.mat_from_rph(p1[['roll', 'pitch', 'heading']]) - C_en @ Cm) / h
+          out[h] = (A, B, Cc)
+      # Richardson: first-order defect extrapolated to h -> 0
+      ex = [2 * out[h1][k] - out[h2][k] for k in range(3)]
+      wantA = C_en @ V
+      wantB = C_en @ Cm @ d + C_en @ g_n - 2 * np.cross(We, C_en @ V)
+      Wx = np.array([[0, -a[2], a[1]], [a[2], 0, -a[0]], [-a[1], a[0], 0]])
+      Ex = np.array([[0, -earth.RATE, 0], [earth.RATE, 0, 0], [0, 0, 0]])
+      wantC = C_en @ Cm @ Wx - Ex @ C_en @ Cm
+      # Richardson-extrapolated one-step rates are accurate to O(h^2) ~ 1e-6 relative; the tolerances sit
+      # just above that so that dt-independent defects of a few 1e-5 m/s^2 (e.g. a wrong radius in a
+      # transport-rate term at 250 m/s) are still seen
+      for nm, got, want, tol in (('position kinematics', ex[0], wantA, 2e-6 * max(1, np.abs(wantA).max()) + 1e-6),
+                                 ('velocity dynamics', ex[1], wantB, 2e-6 * max(1, np.abs(wantB).max()) + 3e-6),
+                                 ('attitude kinematics', ex[2], wantC, 4e-5 * max(1, np.abs(wantC).max()))):
+          if np.abs(got - want).max() > tol:
+              fails.append('%s: one-step rate of the integrator (steps %.6g, %.6g s) differs from Newton\'s law in ECEF by %.3g (tolerance %.3g)' % (nm, h2, h1, np.abs(got - want).max(), tol))
     return {'violated': bool(fails), 'detail': fails}
